@@ -514,4 +514,6 @@ def run(tier):
     chk.floor('rule instances', len(chk.obls), 35)
     from .. import lints
     lints.length_is_boolean(chk, ['src/x509/'])
+    from .. import lints as _lints_ir
+    _lints_ir.ignored_result_regression(chk, ['src/x509/'])
     return chk.finish()
